@@ -76,6 +76,7 @@ def run(ctx):
     runtime = ctx.path("rt.c")
     open(runtime, "w").write('#include <stdio.h>\nvoid obs(long long v) { printf("%lld\\n", v); }\n')
     c15_switch.run_switches(ctx, objdir, runtime, lambda t: t == "x86_64-sysv")
+    c15_switch.run_duplicates(ctx, objdir)
     # duplicate case constants / duplicate default must be rejected
     for src, what in (("void f(int v){switch(v){case 1:;case 1:;}}", "dup-case"), ("void f(int v){switch(v){default:;default:;}}", "dup-default"),
                       ("void f(unsigned char v){switch(v){case -1:;case 0xffffffff:;}}", "dup-case-after-conversion"),
